@@ -83,48 +83,73 @@ where
 }
 
 impl Inflection {
-    pub fn apply(self, string: &str) -> String {
+    /// Renames a struct field (or a field of a struct variant) the way serde does: serde assumes
+    /// that fields are written in `snake_case`, so `lowercase` and `snake_case` leave the name
+    /// untouched and the other conventions only act on `_` and on ASCII letters.
+    pub fn apply_to_field(self, field: &str) -> String {
         match self {
-            Inflection::Lower => string.to_lowercase(),
-            Inflection::Upper => string.to_uppercase(),
-            Inflection::Camel => {
-                let pascal = Inflection::apply(Inflection::Pascal, string);
-                pascal[..1].to_ascii_lowercase() + &pascal[1..]
-            }
-            Inflection::Snake => {
-                let mut s = String::new();
-
-                for (i, ch) in string.char_indices() {
-                    if ch.is_uppercase() && i != 0 {
-                        s.push('_');
-                    }
-                    s.push(ch.to_ascii_lowercase());
-                }
-
-                s
-            }
+            Inflection::Lower | Inflection::Snake => field.to_owned(),
+            Inflection::Upper | Inflection::ScreamingSnake => field.to_ascii_uppercase(),
             Inflection::Pascal => {
-                let mut s = String::with_capacity(string.len());
-
+                let mut pascal = String::with_capacity(field.len());
                 let mut capitalize = true;
-                for c in string.chars() {
-                    if c == '_' {
+                for ch in field.chars() {
+                    if ch == '_' {
                         capitalize = true;
-                        continue;
                     } else if capitalize {
-                        s.push(c.to_ascii_uppercase());
+                        pascal.push(ch.to_ascii_uppercase());
                         capitalize = false;
                     } else {
-                        s.push(c)
+                        pascal.push(ch);
                     }
                 }
-
-                s
+                pascal
             }
-            Inflection::ScreamingSnake => Self::Snake.apply(string).to_ascii_uppercase(),
-            Inflection::Kebab => Self::Snake.apply(string).replace('_', "-"),
-            Inflection::ScreamingKebab => Self::Kebab.apply(string).to_ascii_uppercase(),
+            Inflection::Camel => lowercase_first_char(&Inflection::Pascal.apply_to_field(field)),
+            Inflection::Kebab => field.replace('_', "-"),
+            Inflection::ScreamingKebab => Inflection::ScreamingSnake
+                .apply_to_field(field)
+                .replace('_', "-"),
         }
+    }
+
+    /// Renames an enum variant the way serde does: serde assumes that variants are written in
+    /// `PascalCase`, so `PascalCase` leaves the name untouched and words are only split in
+    /// front of upper case letters.
+    pub fn apply_to_variant(self, variant: &str) -> String {
+        match self {
+            Inflection::Pascal => variant.to_owned(),
+            Inflection::Lower => variant.to_ascii_lowercase(),
+            Inflection::Upper => variant.to_ascii_uppercase(),
+            Inflection::Camel => lowercase_first_char(variant),
+            Inflection::Snake => {
+                let mut snake = String::new();
+                for (i, ch) in variant.char_indices() {
+                    if i > 0 && ch.is_uppercase() {
+                        snake.push('_');
+                    }
+                    snake.push(ch.to_ascii_lowercase());
+                }
+                snake
+            }
+            Inflection::ScreamingSnake => Inflection::Snake
+                .apply_to_variant(variant)
+                .to_ascii_uppercase(),
+            Inflection::Kebab => Inflection::Snake.apply_to_variant(variant).replace('_', "-"),
+            Inflection::ScreamingKebab => Inflection::ScreamingSnake
+                .apply_to_variant(variant)
+                .replace('_', "-"),
+        }
+    }
+}
+
+/// ASCII-lowercases the first character. Works on characters, not bytes: the name may be empty
+/// (e.g. the field `__` in `camelCase`) or start with a non-ASCII letter.
+fn lowercase_first_char(name: &str) -> String {
+    let mut chars = name.chars();
+    match chars.next() {
+        Some(first) => first.to_ascii_lowercase().to_string() + chars.as_str(),
+        None => String::new(),
     }
 }
 
